@@ -96,7 +96,7 @@ Proof.
       * destruct (cstep c s serial cost false (CWait x)) as [[q' s1]|] eqn:E; [|discriminate]. apply cstep_rd in E.
         intros H; inversion H; subst. apply Hset; tauto.
       * destruct o; intros H; inversion H; subst; now apply Hset.
-    + destruct (locked s); [discriminate|]. destruct src; intros H; inversion H; subst; now apply Hset.
+    + destruct (locked s); [discriminate|]. destruct src; [destruct (is_nil (s_senders s))|]; intros H; inversion H; subst; now apply Hset.
     + destruct (x_inbox x); [destruct (closed (x_chan x) s); [|discriminate]|]; intros H; inversion H; subst; now apply Hset.
     + discriminate.
     + discriminate.
@@ -175,12 +175,56 @@ Proof.
         -- destruct (cstep c s serial cost false (CWait x)) as [[q' s1]|] eqn:E; [|discriminate]. apply cstep_rd in E.
            inversion Hs; subst. apply Hnew; [tauto | reflexivity].
         -- destruct o; inversion Hs; subst; try (apply Hrel; reflexivity). apply Hnew; reflexivity.
-      * destruct (locked s); [discriminate|]. destruct src; inversion Hs; subst; apply Hrel; reflexivity.
+      * destruct (locked s); [discriminate|]. destruct src; [destruct (is_nil (s_senders s))|]; inversion Hs; subst; apply Hrel; reflexivity.
       * destruct (x_inbox x); [destruct (closed (x_chan x) s); [|discriminate]|]; inversion Hs; subst; apply Hkeep; auto; cbn; discriminate.
       * discriminate.
       * discriminate.
     + destruct p; try discriminate. destruct (send_try c s cost) as [ok s1] eqn:E. apply send_try_rd in E.
       inversion Hs; subst. apply Hkeep; try tauto; cbn; discriminate.
+Qed.
+
+(* once the reader has gone, msg_senders stays empty: add_match re-tests under the lock that inserts (fix 3703ee13) *)
+Definition I3 (s : st) : Prop := s_rd s = RdDone -> s_senders s = [].
+
+Lemma tstep_senders_done c s i s' : s_rd s = RdDone -> s_senders s = [] -> tstep c s i = Some s' -> s_senders s' = [].
+Proof.
+  intros Hr Hsn. unfold tstep. destruct (nth_error (s_tasks s) i) as [t|]; [|discriminate].
+  destruct t as [serial cost nr p|src serial cost p|cost p].
+  - destruct (cstep c s serial cost nr p) as [[p' s1]|] eqn:E; [|discriminate]. apply cstep_rd in E.
+    intros H; inversion H; subst. cbn. destruct E as (_ & _ & _ & _ & E & _). congruence.
+  - destruct p as [| |q| |x|o|x]; try discriminate.
+    + destruct src; [destruct (locked s); [discriminate|]; destruct (is_nil (s_senders s))|]; intros H; inversion H; subst; exact Hsn.
+    + destruct (s_sublock s); [discriminate|].
+      destruct (match src with Some r => mem r (s_subs s) | None => true end); intros H; inversion H; subst; exact Hsn.
+    + destruct q as [|x|x|o].
+      * destruct (cstep c s serial cost false CNew) as [[q' s1]|] eqn:E; [|discriminate]. apply cstep_rd in E.
+        intros H; inversion H; subst. cbn. destruct E as (_ & _ & _ & _ & E & _). congruence.
+      * destruct (cstep c s serial cost false (CSend x)) as [[q' s1]|] eqn:E; [|discriminate]. apply cstep_rd in E.
+        intros H; inversion H; subst. cbn. destruct E as (_ & _ & _ & _ & E & _). congruence.
+      * destruct (cstep c s serial cost false (CWait x)) as [[q' s1]|] eqn:E; [|discriminate]. apply cstep_rd in E.
+        intros H; inversion H; subst. cbn. destruct E as (_ & _ & _ & _ & E & _). congruence.
+      * destruct o; intros H; inversion H; subst; exact Hsn.
+    + destruct (locked s); [discriminate|]. rewrite Hsn. destruct src; intros H; inversion H; subst; exact Hsn.
+    + destruct (x_inbox x); [destruct (closed (x_chan x) s); [|discriminate]|]; intros H; inversion H; subst; exact Hsn.
+  - destruct p; try discriminate. destruct (send_try c s cost) as [ok s1] eqn:E. apply send_try_rd in E.
+    intros H; inversion H; subst. cbn. destruct E as (_ & _ & _ & _ & E & _). congruence.
+Qed.
+
+Lemma I3_step c l s s' : I3 s -> step c l s = Some s' -> I3 s'.
+Proof.
+  intros HI Hs. destruct l as [n| |j| |i]; unfold step in Hs.
+  - destruct (s_rd s) as [got| |]; try discriminate. destruct (nth_error (msgs c) (s_next s)) as [m|]; [|discriminate].
+    destruct (negb (s_broken s) && (1 <=? n) && (s_pos s + n <=? fpos c) && (got + n <=? i_len m)); [|discriminate].
+    destruct (i_len m <=? got + n); inversion Hs; subst; intros H; discriminate H.
+  - destruct (s_rd s); try discriminate.
+    destruct (s_broken s || (fpos c <=? s_pos s) || (length (msgs c) <=? s_next s)); inversion Hs; subst. intros H; discriminate H.
+  - destruct (s_rd s) as [|it rest|]; try discriminate. destruct (nth_error rest j); [|discriminate].
+    destruct (match it with IMsg n => match nth_error (msgs c) n with Some m => kmatch k m | None => false end | IErr _ => true end).
+    + destruct (full c (chan_of k) (s_tasks s)); inversion Hs; subst. intros H; discriminate H.
+    + inversion Hs; subst. intros H; discriminate H.
+  - destruct (s_rd s) as [|it rest|]; try discriminate. destruct rest; [|discriminate].
+    destruct it; inversion Hs; subst; intros H; [discriminate H | reflexivity].
+  - intros Hd. pose proof (tstep_frame _ _ _ _ Hs) as (Hr & _). rewrite Hr in Hd. eapply tstep_senders_done; [exact Hd | exact (HI Hd) | exact Hs].
 Qed.
 
 Lemma I1_init c ts : wf c -> I1 c (init ts).
@@ -195,6 +239,13 @@ Proof.
   - split; [now apply I1_init | unfold I2; cbn; discriminate].
   - split; [eapply I1_step; eassumption | eapply I2_step; eassumption].
 Qed.
+
+Lemma I3_reach c ts tr s : reach c ts tr s -> I3 s.
+Proof. intros Hr. induction Hr as [|tr s l s' Hr IH Hs]; [intros H; discriminate H | eapply I3_step; eassumption]. Qed.
+
+(* the deviation class of the unrepaired code is empty now *)
+Theorem never_raced c ts tr s : reach c ts tr s -> raced s = false.
+Proof. intros Hr. pose proof (I3_reach c ts tr s Hr) as H. unfold raced, I3 in *. destruct (s_rd s); try reflexivity. now rewrite H. Qed.
 
 (* ---------------------------------------------------------------- enabledness *)
 Definition cph_live (p : cph) : bool := match p with CDone _ => false | _ => true end.
@@ -260,7 +311,7 @@ Proof.
       + destruct (Hc serial cost false (CSend x) eq_refl) as [[q' s1] E]. rewrite E. eexists; reflexivity.
       + destruct (Hc serial cost false (CWait x) eq_refl) as [[q' s1] E]. rewrite E. eexists; reflexivity.
       + destruct o; eexists; reflexivity.
-    - rewrite Hlk. destruct src; eexists; reflexivity. }
+    - rewrite Hlk. destruct src; [destruct (is_nil (s_senders s))|]; eexists; reflexivity. }
   destruct t as [serial cost nr p|src serial cost p|cost p].
   - exists i. unfold tstep. rewrite Hi. destruct p as [|x|x|o]; try discriminate.
     + destruct (Hc serial cost nr CNew eq_refl) as [[q' s1] E]. rewrite E. eexists; reflexivity.
@@ -310,10 +361,10 @@ Proof.
     destruct (task_enabled_done c s i t Hrd Hsn H2 Hi Hf) as (j & s' & Hs'). exists (LTask j), s'. exact Hs'.
 Qed.
 
-(* nothing can move -> everything has completed, in every reachable state outside the known race *)
-Theorem stuck_final c ts tr s : wf c -> reach c ts tr s -> raced s = false -> stuck c s -> final s.
+(* nothing can move -> everything has completed, in every reachable state *)
+Theorem stuck_final c ts tr s : wf c -> reach c ts tr s -> stuck c s -> final s.
 Proof.
-  intros Hwf Hr Hrace Hst. apply final_b_iff. destruct (final_b s) eqn:E; [reflexivity|].
+  intros Hwf Hr Hst. pose proof (never_raced c ts tr s Hr) as Hrace. apply final_b_iff. destruct (final_b s) eqn:E; [reflexivity|].
   destruct (invariants c ts tr s Hwf Hr) as [H1 H2].
   destruct (progress c s Hwf H1 H2 Hrace E) as (l & s' & Hs). rewrite (Hst l) in Hs. discriminate.
 Qed.
